@@ -14,7 +14,7 @@
 
    T (bits of the element type) and W (packed width) are ordinary arguments; the Rust code instantiates
    T in {8,16,32,64} and W in 0..=T by macro expansion.  All values are N; the truncation of `<<` to T bits
-   is the explicit `mod 2^T`.  Array writes are modelled as functional updates of the caller's buffer
+   is explicit (`trunc T`).  Array writes are modelled as functional updates of the caller's buffer
    in program order (scatter), array reads as nth.  *)
 From LanceV Require Import Common.Base.
 Local Open Scope N_scope.
@@ -47,6 +47,9 @@ Definition scatter (out : list N) (ws : list (N * N)) : list N :=
 
 Definition rd (a : list N) (i : N) : N := nth (N.to_nat i) a 0.
 
+(* keep the low T bits (what a T-bit register holds after `<<`): x mod 2^T *)
+Definition trunc (T x : N) : N := N.land x (N.ones T).
+
 (* ---------------- pack!: one lane ----------------
    src_of row = the kernel `input[index(row, lane)]`.
    Result: the writes (word index within the lane, value) in program order. *)
@@ -57,7 +60,7 @@ Definition pack_step (T W : N) (src_of : N -> N) (st : N * list (N * N)) (row : 
   let mask := N.shiftl 1 W - 1 in                       (* let mask: T = (1 << W) - 1 *)
   let src := N.land (src_of row) mask in
   let tmp := if row =? 0 then src
-             else N.lor tmp (N.shiftl src ((row * W) mod T) mod 2 ^ T) in   (* tmp |= src << (row*W)%T *)
+             else N.lor tmp (trunc T (N.shiftl src ((row * W) mod T))) in   (* tmp |= src << (row*W)%T *)
   let curr_word := (row * W) / T in
   let next_word := ((row + 1) * W) / T in
   if curr_word <? next_word then
@@ -74,7 +77,7 @@ Definition pack_lane (T W : N) (src_of : N -> N) : list (N * N) :=
    packed_of w = `packed[LANES * w + lane]`.
    Result: the kernel calls (row, value) in program order. *)
 Definition unpack_mask (T width : N) : N :=
-  if width =? T then 2 ^ T - 1 else N.shiftl 1 (width mod T) - 1.
+  if width =? T then N.ones T else N.shiftl 1 (width mod T) - 1.
 
 Definition unpack_step (T W : N) (packed_of : N -> N) (st : N * list (N * N)) (row : N) : N * list (N * N) :=
   let '(src, outs) := st in
@@ -87,7 +90,7 @@ Definition unpack_step (T W : N) (packed_of : N -> N) (st : N * list (N * N)) (r
     let tmp := N.land (N.shiftr src shift) (unpack_mask T current_bits) in
     if next_word <? W then
       let src' := packed_of next_word in
-      let tmp' := N.lor tmp (N.shiftl (N.land src' (unpack_mask T remaining_bits)) current_bits mod 2 ^ T) in
+      let tmp' := N.lor tmp (trunc T (N.shiftl (N.land src' (unpack_mask T remaining_bits)) current_bits)) in
       (src', outs ++ [(row, tmp')])
     else (src, outs ++ [(row, tmp)])
   else
